@@ -8,7 +8,8 @@ Rules == {
   R(<<a, SEP, TOKEN>>, <<None>>), R(<<a, SEP, TOKEN, SEP, b>>, <<None>>), R(<<TOKEN, TOKEN>>, <<"int(None)", None>>),
   R(<<a, TOKEN, b>>, <<"re([a-z]+)">>), R(<<TOKEN, SEP, TOKEN>>, <<"int(None)", "float(None)">>), R(<<p, SEP, TOKEN, SEP, e>>, <<"path(/e)">>),
   R(<<p, SEP, TOKEN>>, <<"path()">>), R(<<TOKEN, e>>, <<"path(e)">>), R(<<a, b>>, <<>>), R(<<TOKEN, b, TOKEN>>, <<"float(None)", "int(None)">>),
-  R(<<a, SEP, TOKEN, SEP, TOKEN>>, <<"re(to.)", None>>)
+  R(<<a, SEP, TOKEN, SEP, TOKEN>>, <<"re(to.)", None>>),
+  R(<<TOKEN, TOKEN, SEP, e>>, <<"int(None)", "re([a-z]+)">>)
 }
 Alpha == {a, b, e, p, SEP, one, zero, dot, HY, 116, 111}
 Init == rule \in Rules /\ path \in {x \in SeqsUpTo(Alpha, ProbeLen) : x = <<>> \/ (x[1] # SEP /\ x[Len(x)] # SEP)}
